@@ -96,10 +96,9 @@ def newKwargs (s : Sig) (nPos : Nat) (kwargs : Dict) (stack : List Dict) : Dict 
 
 /-- body of the wrapper `f_` up to (not including) the call of `f` -/
 def resolve (s : Sig) (nPos : Nat) (kwargs : Dict) (stack : List Dict) : Except Err Dict :=
-  let nk := newKwargs s nPos kwargs stack
-  match firstRequired nk with
+  match firstRequired (newKwargs s nPos kwargs stack) with
   | some k => .error (.missing k)
-  | none => .ok nk
+  | none => .ok (newKwargs s nPos kwargs stack)
 
 /-- Python's binding of `f(self, *args, **new_kwargs)`: the parameter -> value map -/
 def bind (s : Sig) (pos : List Val) (nk : Dict) : Except Err Dict :=
@@ -143,8 +142,7 @@ def localEth (x y : Int) (w h : Nat) (rx ry : Int) : Int × Int :=
 def getConnection (c : McCfg) (x y : Int) : Option (Int × Int) :=
   match c.dims, c.root with
   | some (w, h), some (rx, ry) =>
-    let e := localEth x y w h rx ry
-    if c.conns.contains e then some e else none
+    if c.conns.contains (localEth x y w h rx ry) then some (localEth x y w h rx ry) else none
   | _, _ => none
 
 /-- `BMPController._send_scp` connection lookup: `(c, f, b)` then `(c, f)`; keys as lists -/
@@ -185,84 +183,82 @@ structure Pat where
   extra : Option Val
   deriving Repr, DecidableEq
 
-private def r := Ex.ref
-private def i (n : Int) := Ex.lit (.int n)
-private def readSF : Op := .call "read_struct_field" [.dyn, .dyn, r "x", r "y"] []
+def readSF : Op := .call "read_struct_field" [.dyn, .dyn, Ex.ref "x", Ex.ref "y"] []
 
 /-- transcription of the method bodies of `MachineController` (sends and inner decorated calls only) -/
 def mcBody : String → List Op
-  | "send_scp" => [.scp (r "x") (r "y") (r "p") none]
+  | "send_scp" => [.scp (Ex.ref "x") (Ex.ref "y") (Ex.ref "p") none]
   | "discover_connections" =>
-    [.call "get_p2p_routing_table" [r "x", r "y"] [],
-     .call "get_software_version" [i 255, i 255, i 0] [],     -- the `root_chip` property
+    [.call "get_p2p_routing_table" [Ex.ref "x", Ex.ref "y"] [],
+     .call "get_software_version" [Ex.lit (.int 255), Ex.lit (.int 255), Ex.lit (.int 0)] [],     -- the `root_chip` property
      .call "get_ip_address" [.dyn, .dyn] [],
-     .call "get_software_version" [.dyn, .dyn, i 0] []]
+     .call "get_software_version" [.dyn, .dyn, Ex.lit (.int 0)] []]
   | "application" => []
-  | "get_software_version" => [.scp (r "x") (r "y") (r "processor") none]
-  | "get_ip_address" => [.call "get_chip_info" [] [("x", r "x"), ("y", r "y")]]
-  | "write" => [.mem (r "x") (r "y") (r "p")]
-  | "read" => [.mem (r "x") (r "y") (r "p")]
-  | "write_across_link" => [.scp (r "x") (r "y") (i 0) none]
-  | "read_across_link" => [.scp (r "x") (r "y") (i 0) none]
-  | "read_struct_field" => [.call "read" [.dyn, .dyn, r "x", r "y", r "p"] []]
-  | "write_struct_field" => [.call "write" [.dyn, .dyn, r "x", r "y", r "p"] []]
-  | "read_vcpu_struct_field" => [readSF, .call "read" [.dyn, .dyn, r "x", r "y"] []]
-  | "write_vcpu_struct_field" => [readSF, .call "write" [.dyn, .dyn, r "x", r "y"] []]
-  | "get_processor_status" => [readSF, .call "read" [.dyn, .dyn, r "x", r "y"] []]
-  | "get_iobuf" => [.call "get_iobuf_bytes" [r "p", r "x", r "y"] []]
+  | "get_software_version" => [.scp (Ex.ref "x") (Ex.ref "y") (Ex.ref "processor") none]
+  | "get_ip_address" => [.call "get_chip_info" [] [("x", Ex.ref "x"), ("y", Ex.ref "y")]]
+  | "write" => [.mem (Ex.ref "x") (Ex.ref "y") (Ex.ref "p")]
+  | "read" => [.mem (Ex.ref "x") (Ex.ref "y") (Ex.ref "p")]
+  | "write_across_link" => [.scp (Ex.ref "x") (Ex.ref "y") (Ex.lit (.int 0)) none]
+  | "read_across_link" => [.scp (Ex.ref "x") (Ex.ref "y") (Ex.lit (.int 0)) none]
+  | "read_struct_field" => [.call "read" [.dyn, .dyn, Ex.ref "x", Ex.ref "y", Ex.ref "p"] []]
+  | "write_struct_field" => [.call "write" [.dyn, .dyn, Ex.ref "x", Ex.ref "y", Ex.ref "p"] []]
+  | "read_vcpu_struct_field" => [readSF, .call "read" [.dyn, .dyn, Ex.ref "x", Ex.ref "y"] []]
+  | "write_vcpu_struct_field" => [readSF, .call "write" [.dyn, .dyn, Ex.ref "x", Ex.ref "y"] []]
+  | "get_processor_status" => [readSF, .call "read" [.dyn, .dyn, Ex.ref "x", Ex.ref "y"] []]
+  | "get_iobuf" => [.call "get_iobuf_bytes" [Ex.ref "p", Ex.ref "x", Ex.ref "y"] []]
   | "get_iobuf_bytes" =>
-    [readSF, .call "read_vcpu_struct_field" [.dyn, r "x", r "y", r "p"] [],
-     .call "read" [.dyn, .dyn, r "x", r "y"] []]
-  | "get_router_diagnostics" => [.call "read" [.dyn, .dyn] [("x", r "x"), ("y", r "y")]]
-  | "iptag_set" => [.scp (r "x") (r "y") (i 0) none]
-  | "iptag_get" => [.scp (r "x") (r "y") (i 0) none]
-  | "iptag_clear" => [.scp (r "x") (r "y") (i 0) none]
-  | "set_led" => [.scp (r "x") (r "y") (i 0) none]
+    [readSF, .call "read_vcpu_struct_field" [.dyn, Ex.ref "x", Ex.ref "y", Ex.ref "p"] [],
+     .call "read" [.dyn, .dyn, Ex.ref "x", Ex.ref "y"] []]
+  | "get_router_diagnostics" => [.call "read" [.dyn, .dyn] [("x", Ex.ref "x"), ("y", Ex.ref "y")]]
+  | "iptag_set" => [.scp (Ex.ref "x") (Ex.ref "y") (Ex.lit (.int 0)) none]
+  | "iptag_get" => [.scp (Ex.ref "x") (Ex.ref "y") (Ex.lit (.int 0)) none]
+  | "iptag_clear" => [.scp (Ex.ref "x") (Ex.ref "y") (Ex.lit (.int 0)) none]
+  | "set_led" => [.scp (Ex.ref "x") (Ex.ref "y") (Ex.lit (.int 0)) none]
   | "fill" =>
-    [.call "write" [.dyn, .dyn, r "x", r "y", r "p"] [], .scp (r "x") (r "y") (r "p") none]
+    [.call "write" [.dyn, .dyn, Ex.ref "x", Ex.ref "y", Ex.ref "p"] [], .scp (Ex.ref "x") (Ex.ref "y") (Ex.ref "p") none]
   | "sdram_alloc" =>
-    [.scp (r "x") (r "y") (i 0) (some (r "app_id")), readSF,
-     .call "read" [.dyn, .dyn, r "x", r "y"] [],
-     .call "fill" [.dyn, i 0, r "size", r "x", r "y", i 0] []]
+    [.scp (Ex.ref "x") (Ex.ref "y") (Ex.lit (.int 0)) (some (Ex.ref "app_id")), readSF,
+     .call "read" [.dyn, .dyn, Ex.ref "x", Ex.ref "y"] [],
+     .call "fill" [.dyn, Ex.lit (.int 0), Ex.ref "size", Ex.ref "x", Ex.ref "y", Ex.lit (.int 0)] []]
   | "sdram_alloc_as_filelike" =>
-    [.call "sdram_alloc" [r "size", r "tag", r "x", r "y", r "app_id", r "clear"] []]
-  | "sdram_free" => [.scp (r "x") (r "y") (i 0) none]
+    [.call "sdram_alloc" [Ex.ref "size", Ex.ref "tag", Ex.ref "x", Ex.ref "y", Ex.ref "app_id", Ex.ref "clear"] []]
+  | "sdram_free" => [.scp (Ex.ref "x") (Ex.ref "y") (Ex.lit (.int 0)) none]
   | "flood_fill_aplx" =>
-    [.scp (i 255) (i 255) (i 0) none,
-     .call "read_struct_field" [.dyn, .dyn, i 255, i 255] [],
-     .scp (i 255) (i 255) (i 0) (some (r "app_id"))]
+    [.scp (Ex.lit (.int 255)) (Ex.lit (.int 255)) (Ex.lit (.int 0)) none,
+     .call "read_struct_field" [.dyn, .dyn, Ex.lit (.int 255), Ex.lit (.int 255)] [],
+     .scp (Ex.lit (.int 255)) (Ex.lit (.int 255)) (Ex.lit (.int 0)) (some (Ex.ref "app_id"))]
   | "load_application" =>
-    [.call "flood_fill_aplx" [.dyn] [("app_id", r "app_id"), ("wait", .lit (.bool true))],
-     .call "count_cores_in_state" [.dyn, r "app_id"] [],
+    [.call "flood_fill_aplx" [.dyn] [("app_id", Ex.ref "app_id"), ("wait", .lit (.bool true))],
+     .call "count_cores_in_state" [.dyn, Ex.ref "app_id"] [],
      .call "read_vcpu_struct_field" [.dyn, .dyn, .dyn, .dyn] [],
-     .call "send_signal" [.dyn, r "app_id"] []]
-  | "send_signal" => [.scp (i 255) (i 255) (i 0) (some (r "app_id"))]
-  | "count_cores_in_state" => [.scp (i 255) (i 255) (i 0) (some (r "app_id"))]
-  | "wait_for_cores_to_reach_state" => [.call "count_cores_in_state" [r "state", r "app_id"] []]
+     .call "send_signal" [.dyn, Ex.ref "app_id"] []]
+  | "send_signal" => [.scp (Ex.lit (.int 255)) (Ex.lit (.int 255)) (Ex.lit (.int 0)) (some (Ex.ref "app_id"))]
+  | "count_cores_in_state" => [.scp (Ex.lit (.int 255)) (Ex.lit (.int 255)) (Ex.lit (.int 0)) (some (Ex.ref "app_id"))]
+  | "wait_for_cores_to_reach_state" => [.call "count_cores_in_state" [Ex.ref "state", Ex.ref "app_id"] []]
   | "load_routing_tables" =>
-    [.call "load_routing_table_entries" [.dyn] [("x", .dyn), ("y", .dyn), ("app_id", r "app_id")]]
+    [.call "load_routing_table_entries" [.dyn] [("x", .dyn), ("y", .dyn), ("app_id", Ex.ref "app_id")]]
   | "load_routing_table_entries" =>
-    [.scp (r "x") (r "y") (i 0) (some (r "app_id")), readSF,
-     .call "write" [.dyn, .dyn, r "x", r "y"] []]
-  | "get_routing_table_entries" => [readSF, .call "read" [.dyn, .dyn, r "x", r "y"] []]
-  | "clear_routing_table_entries" => [.scp (r "x") (r "y") (i 0) (some (r "app_id"))]
-  | "get_p2p_routing_table" => [readSF, .call "read" [.dyn, .dyn, r "x", r "y"] []]
-  | "get_chip_info" => [.scp (r "x") (r "y") (i 0) none]
-  | "get_working_links" => [.call "get_chip_info" [r "x", r "y"] []]
+    [.scp (Ex.ref "x") (Ex.ref "y") (Ex.lit (.int 0)) (some (Ex.ref "app_id")), readSF,
+     .call "write" [.dyn, .dyn, Ex.ref "x", Ex.ref "y"] []]
+  | "get_routing_table_entries" => [readSF, .call "read" [.dyn, .dyn, Ex.ref "x", Ex.ref "y"] []]
+  | "clear_routing_table_entries" => [.scp (Ex.ref "x") (Ex.ref "y") (Ex.lit (.int 0)) (some (Ex.ref "app_id"))]
+  | "get_p2p_routing_table" => [readSF, .call "read" [.dyn, .dyn, Ex.ref "x", Ex.ref "y"] []]
+  | "get_chip_info" => [.scp (Ex.ref "x") (Ex.ref "y") (Ex.lit (.int 0)) none]
+  | "get_working_links" => [.call "get_chip_info" [Ex.ref "x", Ex.ref "y"] []]
   | "get_num_working_cores" => [readSF]
   | "get_system_info" =>
-    [.call "get_p2p_routing_table" [r "x", r "y"] [], .call "get_chip_info" [.dyn, .dyn] []]
+    [.call "get_p2p_routing_table" [Ex.ref "x", Ex.ref "y"] [], .call "get_chip_info" [.dyn, .dyn] []]
   | _ => []
 
 /-- transcription of the method bodies of `BMPController` -/
 def bmpBody : String → List Op
-  | "send_scp" => [.bmp (r "cabinet") (r "frame") (r "board") none]
-  | "get_software_version" => [.bmp (r "cabinet") (r "frame") (r "board") none]
-  | "set_power" => [.bmp (r "cabinet") (r "frame") (i 0) (some (.mask "board"))]  -- always sent to board 0
-  | "set_led" => [.bmp (r "cabinet") (r "frame") (r "board") (some (.mask "board"))]
-  | "read_fpga_reg" => [.bmp (r "cabinet") (r "frame") (r "board") none]
-  | "write_fpga_reg" => [.bmp (r "cabinet") (r "frame") (r "board") none]
-  | "read_adc" => [.bmp (r "cabinet") (r "frame") (r "board") none]
+  | "send_scp" => [.bmp (Ex.ref "cabinet") (Ex.ref "frame") (Ex.ref "board") none]
+  | "get_software_version" => [.bmp (Ex.ref "cabinet") (Ex.ref "frame") (Ex.ref "board") none]
+  | "set_power" => [.bmp (Ex.ref "cabinet") (Ex.ref "frame") (Ex.lit (.int 0)) (some (.mask "board"))]  -- always sent to board 0
+  | "set_led" => [.bmp (Ex.ref "cabinet") (Ex.ref "frame") (Ex.ref "board") (some (.mask "board"))]
+  | "read_fpga_reg" => [.bmp (Ex.ref "cabinet") (Ex.ref "frame") (Ex.ref "board") none]
+  | "write_fpga_reg" => [.bmp (Ex.ref "cabinet") (Ex.ref "frame") (Ex.ref "board") none]
+  | "read_adc" => [.bmp (Ex.ref "cabinet") (Ex.ref "frame") (Ex.ref "board") none]
   | _ => []
 
 def bodyOf (cls m : String) : List Op :=
